@@ -46,6 +46,10 @@ def badLines : List IoEv2 :=
    ln true "Fsync" "meta" 0 "t1",
    ln false "Fsync" "meta" 0 "t1"]
 
+/-- the WAL truncation the previous sync left un-synced, as an entry of the monitor's pending list -/
+def pendingTrunc : Pend :=
+  { id := 0, kind := "SetLen", file := "wal", name := "wal", offset := 0, site := "wal.truncate", ended := true }
+
 /-- the contents the trace does not carry -/
 def C : Contents Nat TMeta (Nat × List (Nat × Nat)) where
   page := fun i => if i = 0 then 7 else 9
